@@ -71,7 +71,7 @@ Section S.
     - cbn [walk]. unfold selected, visited. cbn. rewrite app_nil_r. repeat split; [exact Hc|lia|lia].
     - cbn [walk]. unfold selected, visited. cbn [reach].
       destruct (listing base) as [[dirs files]|].
-      + rewrite Hc, (dirsC_filter base dirs c Hc).
+      + rewrite Hc, (dirsC_filter base dirs c Hc). rewrite Hc.
         destruct (filesC_sel base files c Hc) as [F1 [F2 [F3 F4]]].
         set (s2 := filesC base files c) in *.
         cbn [flat_map fold_right fst snd].
